@@ -80,6 +80,12 @@ Proof.
   - intros t i i' v H. destruct i as [s l | a b av bv lastT la pa pb ua].
     + apply seek_leaf_is_leaf in H. exact H.
     + rewrite seek_node in H. cbv zeta in H.
+      destruct (lastT =? MinT).
+      { destruct (next f (Node a b av bv lastT la pa pb ua)) as [[i1 v1]|] eqn:En; [|discriminate].
+        pose proof (IHn _ _ _ En) as D1.
+        destruct v1.
+        - rewrite (IHs _ _ _ _ H). exact D1.
+        - injection H as <- _. exact D1. }
       destruct (t <=? atT (Node a b av bv lastT la pa pb ua)).
       * destruct ua.
         -- destruct (seek f _ a) as [[a' v']|] eqn:E; [|discriminate].
@@ -129,6 +135,9 @@ Proof.
       unfold need_seek in Hf. cbn [depth] in Hf.
       set (m := Nat.max (depth a) (depth b)) in *.
       rewrite seek_node. cbv zeta.
+      assert (HxM : (fst x =? MinT) = false).
+      { apply Z.eqb_neq. destruct Hok as [_ HF]. inversion HF; subst. lia. }
+      rewrite HxM.
       destruct (t <=? atT (Node a b true bv (fst x) true 0 pb true)).
       * destruct (IHs a (x :: R) (atT (Node a b true bv (fst x) true 0 pb true)) Ha) as [[a' v'] Ea].
         { unfold need_seek. assert (depth a <= m)%nat by lia. nia. }
